@@ -116,6 +116,17 @@ func init() {
 					_, _ = tssrsa.CombineSignShares(pub, []tssrsa.SignShare{sshares[0], s}, digest)
 				}
 			},
-			Valid: func(i int) []byte { return ssb[i%len(ssb)] }},
+			// the first valid encoding is the share of the last player, so that the decoded share really is the
+			// one with the largest index (the interpolation coefficients change sign with the position)
+			Valid: func(i int) []byte { return ssb[(i+len(ssb)-1)%len(ssb)] }},
+		Entry{Name: "tss/rsa.CombineSignShares(decoded-share-middle)", Group: "tss", Moduli: [][]byte{key.N.Bytes()}, NValid: len(ssb), LenFields: [][2]int{{6, 2}}, Cost: 3,
+			Call: func(b []byte) {
+				var s tssrsa.SignShare
+				if s.UnmarshalBinary(b) == nil {
+					reached("tss")
+					_, _ = tssrsa.CombineSignShares(pub, []tssrsa.SignShare{sshares[0], s, sshares[2]}, digest)
+				}
+			},
+			Valid: func(i int) []byte { return ssb[(i+1)%len(ssb)] }},
 	)
 }
